@@ -82,7 +82,9 @@ def handle (op : Json) : R Json := do
     let stackLv ← (arrD op "stack").toList.mapM (fun j => j.getInt?)
     let addCaller := !(boolD op "nocaller" false)
     let chain ← (arrD op "chain").toList.mapM parseDeriv
-    let n := depth + 64
+    -- user-side frames below the call site: the harness stack is tall, except when the wrapper chain is a goroutine's entry
+    -- (closure, `depth` wrappers, the entry function, runtime.goexit)
+    let n := if boolD op "goentry" false then depth + 3 else depth + 64
     let pre : List Fr := [-1, -2, -3]
     match run chain {} with
     | none => throw "ill-typed derivation chain"
